@@ -2,7 +2,30 @@
 // a single-precision preconditioner under a double-precision Krylov solver reaches the default
 // relative tolerance 1e-8 on the model problems; the true residual (recomputed in double from
 // the returned x) confirms the reported one.  Output: booleans only (no decimal floats).
+//
+// Round 2b (seeded C13-2): mixed precision TOGETHER WITH the re-interpretation of scalar vectors as block
+// vectors (backend::reinterpret_as_rhs, builtin.hpp: the view's element type is rhs_of<MatrixValue> with its
+// scalar REPLACED by the scalar of the VECTOR, i.e. the view does not depend on the matrix precision).
+//  (a) kernel level, EXACT: float block (and hybrid) matrices, DOUBLE scalar vectors, dyadic data small enough that
+//      every float and every double operation is exact; compared digit for digit with the extracted model
+//      (ops of the model driver "blockspmv": the model has ONE Scalar, the claim is that the matrix precision is
+//      invisible in the result):
+//        bspmv  b A x alpha beta y : crs<static_matrix<float,b,b>> + reinterpret_as_rhs<block>(double vectors)
+//        hspmv  b A x alpha beta y : builtin_hybrid<float block>::copy_matrix, mixed spmv_impl, double vectors
+//        bresid / hresid b A f x r : backend::residual, same two ways
+//        bvmul  b X y alpha beta z : backend::vmul, X = float blocks (std::vector<block>), y, z double scalar vectors
+//        cview  b n                : re-interpretation of a std::complex<double> vector through complex blocks:
+//                                    number of elements of the view and complex numbers per element
+//  (b) solve level (op mixed): kinds hybrid_fd (float builtin_hybrid AMG under a double hybrid CG), as_block_fd
+//      (relaxation::as_block with float blocks inside a float AMG under a double CG), mbs_fd (make_block_solver with
+//      float blocks fed double vectors, as a preconditioner of a double CG: examples/schurpc_mixed.cpp).
 #include "vq_io.hpp"
+#include <complex>
+#include <amgcl/value_type/complex.hpp>
+#include <amgcl/backend/builtin_hybrid.hpp>
+#include <amgcl/make_block_solver.hpp>
+#include <amgcl/solver/preonly.hpp>
+#include <amgcl/relaxation/as_block.hpp>
 #include <amgcl/adapter/crs_tuple.hpp>
 #include <amgcl/adapter/block_matrix.hpp>
 #include <amgcl/value_type/static_matrix.hpp>
@@ -18,6 +41,95 @@
 using vq::Tok;
 namespace be = amgcl::backend;
 
+
+// ---------------------------------------------------------------- (a) kernel level, exact
+namespace vq { template <> inline float Tok::val<float>() { return (float)d(); } }
+using vq::show;
+template <class T, int b> static std::string show_blk(const amgcl::static_matrix<T, b, b> &v) {
+    std::ostringstream os; os << "(";
+    for (int i = 0; i < b; ++i) { if (i) os << ";"; for (int j = 0; j < b; ++j) { if (j) os << ","; os << show((double)v(i, j)); } }
+    os << ")"; return os.str();
+}
+template <int b, class M> static std::string dump_blocks(const M &A) {
+    std::ostringstream os; size_t n = be::rows(A), m = be::cols(A);
+    os << "{" << n << " " << m;
+    for (size_t i = 0; i < n; ++i) {
+        os << " |";
+        for (auto a = be::row_begin(A, i); a; ++a) {
+            if ((size_t)a.col() >= m) return "BADCRS col-out-of-range";
+            os << " " << (long)a.col() << ":" << show_blk(a.value());
+        }
+    }
+    os << "}"; return os.str();
+}
+template <int b> static std::string mxrun(const std::string &op, Tok &t) {
+    typedef amgcl::static_matrix<float, b, b> FB;
+    typedef be::builtin_hybrid<FB> HF;
+    if (op == "bvmul") {
+        long n = t.i(); std::vector<FB> X(n);
+        for (long k = 0; k < n; ++k) for (int i = 0; i < b; ++i) for (int j = 0; j < b; ++j) X[k](i, j) = (float)t.d();
+        std::vector<double> y = t.vecT<double>(); double alpha = t.d(), beta = t.d(); std::vector<double> z = t.vecT<double>();
+        if ((long)y.size() != n * b || (long)z.size() != n * b) throw std::invalid_argument("sizes");
+        be::vmul(alpha, X, y, beta, z);
+        return show(z);
+    }
+    auto S = t.crsT<float>();
+    if (op == "bspmv" || op == "hspmv") {
+        std::vector<double> x = t.vecT<double>(); double alpha = t.d(), beta = t.d(); std::vector<double> y = t.vecT<double>();
+        if (op == "bspmv") {
+            be::crs<FB> C(amgcl::adapter::block_matrix<FB>(*S));
+            auto X = be::reinterpret_as_rhs<FB>(x); auto Y = be::reinterpret_as_rhs<FB>(y);
+            if ((size_t)X.size() * b != x.size() - x.size() % b) return "BADVIEW " + std::to_string(X.size()) + " elements for " + std::to_string(x.size()) + " scalars";
+            be::spmv(alpha, C, X, beta, Y);
+            return dump_blocks<b>(C) + " " + show(y);
+        } else {
+            auto M = HF::copy_matrix(S, typename HF::params());
+            be::spmv(alpha, *M, x, beta, y);
+            return show(y);
+        }
+    } else {
+        std::vector<double> f = t.vecT<double>(), x = t.vecT<double>(), r = t.vecT<double>();
+        if (op == "bresid") {
+            be::crs<FB> C(amgcl::adapter::block_matrix<FB>(*S));
+            auto F = be::reinterpret_as_rhs<FB>(f); auto X = be::reinterpret_as_rhs<FB>(x); auto R = be::reinterpret_as_rhs<FB>(r);
+            be::residual(F, C, X, R);
+            return show(r);
+        } else {
+            auto M = HF::copy_matrix(S, typename HF::params());
+            be::residual(f, *M, x, r);
+            return show(r);
+        }
+    }
+}
+static std::string mxdispatch(const std::string &op, Tok &t) {
+    long b = t.i();
+    if (b == 2) return mxrun<2>(op, t);
+    if (b == 3) return mxrun<3>(op, t);
+    if (b == 4) return mxrun<4>(op, t);
+    throw std::invalid_argument("block size");
+}
+#define MX_OP(name) VQ_OP(name) { try { return mxdispatch(#name, t); } catch (const std::exception &e) { return "EXC " + vq::exc_kind(e); } }
+MX_OP(bspmv) MX_OP(hspmv) MX_OP(bresid) MX_OP(hresid) MX_OP(bvmul)
+
+// complex vector viewed through complex b x b blocks: n complex numbers must give n/b elements of b complex numbers
+template <int b> static std::string cview(long n) {
+    typedef std::complex<double> C; typedef amgcl::static_matrix<C, b, b> CB;
+    std::vector<C> x(n);
+    auto X = be::reinterpret_as_rhs<CB>(x);
+    typedef typename std::decay<decltype(*X.begin())>::type E;
+    std::ostringstream os; os << "elements=" << X.size() << " complex_per_element=" << sizeof(E) / sizeof(C)
+                              << " bytes_per_element=" << sizeof(E);
+    return os.str();
+}
+VQ_OP(cview) {
+    long b = t.i(), n = t.i();
+    if (b == 2) return cview<2>(n);
+    if (b == 3) return cview<3>(n);
+    if (b == 4) return cview<4>(n);
+    throw std::invalid_argument("block size");
+}
+
+// ---------------------------------------------------------------- (b) solve level
 struct Sys { ptrdiff_t n; std::vector<ptrdiff_t> ptr, col; std::vector<double> val; };
 // dim = 2 or 3, m points per direction, anisotropy eps on the y direction, block = Kronecker with I_b
 static Sys poisson(int dim, int m, double eps, int b) {
@@ -51,9 +163,57 @@ template <class R> static std::string verdict(const R &r, const Sys &s, const st
     os << "reported<=1e-8:" << (rep <= 1e-8) << " true<=1e-7:" << (tr <= 1e-7) << " iters<max:" << (std::get<0>(r) < maxiter);
     return os.str();
 }
+
+// make_block_solver with FLOAT blocks used as a preconditioner of a DOUBLE solver: its operator() re-interprets the
+// double vectors of the outer solver (examples/schurpc_mixed.cpp uses it this way inside schur_pressure_correction)
+template <int b> struct MbsPrecond {
+    typedef be::builtin<double> backend_type;
+    typedef backend_type::matrix matrix; typedef double value_type;
+    typedef amgcl::static_matrix<float, b, b> FB;
+    typedef amgcl::make_block_solver< amgcl::amg<be::builtin<FB>, amgcl::coarsening::smoothed_aggregation, amgcl::relaxation::spai0>,
+                                      amgcl::solver::preonly< be::builtin<FB> > > Inner;
+    typedef typename Inner::params params; typedef backend_type::params backend_params;
+    Inner inner; std::shared_ptr<matrix> A;
+    template <class M> MbsPrecond(const M &M_, const params &p = params(), const backend_params & = backend_params())
+        : inner(M_, p), A(std::make_shared<matrix>(M_)) {}
+    template <class V1, class V2> void apply(const V1 &rhs, V2 &&x) const { inner(rhs, x); }
+    const matrix& system_matrix() const { return *A; }
+    std::shared_ptr<matrix> system_matrix_ptr() const { return A; }
+};
+template <int b> static std::string mixed_reinterp(const std::string &kind, int dim, int m, double eps) {
+    using namespace amgcl;
+    typedef static_matrix<float, b, b> FB; typedef static_matrix<double, b, b> DB;
+    Sys s = poisson(dim, m, eps, b); std::vector<double> f(s.n, 1.0), x(s.n, 0.0);
+    for (ptrdiff_t i = 0; i < s.n; ++i) f[i] = 1.0 + 0.25 * (i % 3);
+    auto A = std::tie(s.n, s.ptr, s.col, s.val);
+    if (kind == "hybrid_fd") {
+        typedef be::builtin_hybrid<FB> HF; typedef be::builtin_hybrid<DB> HD;
+        typedef make_solver< amg<HF, coarsening::smoothed_aggregation, relaxation::spai0>, solver::cg<HD> > S;
+        typename S::params prm; prm.precond.coarsening.aggr.block_size = b;
+        S solve(A, prm); return verdict(solve(A, f, x), s, f, x, 100);
+    }
+    if (kind == "as_block_fd") {
+        typedef make_solver< amg<be::builtin<float>, coarsening::smoothed_aggregation,
+                                 relaxation::as_block<be::builtin<FB>, relaxation::spai0>::template type>,
+                             solver::cg< be::builtin<double> > > S;
+        typename S::params prm; prm.precond.coarsening.aggr.block_size = b;
+        S solve(A, prm); return verdict(solve(A, f, x), s, f, x, 100);
+    }
+    if (kind == "mbs_fd") {
+        typedef make_solver< MbsPrecond<b>, solver::cg< be::builtin<double> > > S;
+        S solve(A); return verdict(solve(A, f, x), s, f, x, 100);
+    }
+    throw std::invalid_argument("kind");
+}
 VQ_OP(mixed) {
     std::string kind = t.s(); int dim = t.i(), m = t.i(); double eps = t.d();
     using namespace amgcl;
+    if (kind == "hybrid_fd" || kind == "as_block_fd" || kind == "mbs_fd") {
+        long b = t.i();
+        if (b == 2) return mixed_reinterp<2>(kind, dim, m, eps);
+        if (b == 3) return mixed_reinterp<3>(kind, dim, m, eps);
+        throw std::invalid_argument("block size");
+    }
     if (kind == "cg_sa_spai0") {
         Sys s = poisson(dim, m, eps, 1); std::vector<double> f(s.n, 1.0), x(s.n, 0.0);
         typedef make_solver< amg<be::builtin<float>, coarsening::smoothed_aggregation, relaxation::spai0>, solver::cg< be::builtin<double> > > S;
